@@ -48,6 +48,11 @@ func c17WiringFamily(seed uint64) []c17Input {
 		mk("wiring:restart-handle-given,late-change-b", "db", true, two, []c17Op{lateKinds[r.IntN(len(lateKinds))]}, 64500),
 		mk("wiring:restart-handle-given,no-call,context-ends-early", "db", true, two, nil, 8000),
 		mk("wiring:restart-handle-given,late-change", "db", true, two, []c17Op{lateKinds[r.IntN(len(lateKinds))]}, 64500),
+		func() c17Input {
+			in := mk("wiring:first-read-fails,retried-one-interval-later", "db", true, two, nil, 64500)
+			in.ReadFaults = []c17Fault{{Lo: 0, Hi: 3000, Kind: []string{"moved", "dir"}[r.IntN(2)]}}
+			return in
+		}(),
 		mk("wiring:restart-handle-given,late-change,context-ends-early", "db", true, two, []c17Op{lateKinds[r.IntN(len(lateKinds))]}, 8000),
 	}
 }
@@ -89,7 +94,7 @@ func (ws *c17WireStore) ServeHTTP(w http.ResponseWriter, req *http.Request) {
 	ws.mu.Unlock()
 	if rec != nil && req.Method == "PUT" {
 		rec.mu.Lock()
-		rec.ups = append(rec.ups, c17Upload{T: uint64(now.Sub(rec.start) / time.Millisecond), OK: true, Bucket: bucket, Key: key})
+		rec.ups = append(rec.ups, c17Upload{T: uint64(now.Sub(rec.start) / time.Millisecond), OK: true, Bucket: bucket, Key: key, Len: len(body)})
 		rec.raw = append(rec.raw, sha256.Sum256(body))
 		rec.mu.Unlock()
 	}
@@ -204,10 +209,25 @@ func runC17WiringOne(work string, i int, in c17Input, store *c17WireStore) Recor
 	recordVersion(1)
 	ctx, cancel := context.WithCancel(context.Background())
 	defer cancel()
+	for _, f := range in.ReadFaults { // (only intervals starting before the task are used in real time)
+		if err := c17FaultApply(env.path, f); err != nil {
+			return fail("fault: " + err.Error())
+		}
+	}
 	rec.mu.Lock()
 	rec.start = time.Now()
 	rec.mu.Unlock()
 	start := rec.start
+	var fwg sync.WaitGroup
+	for _, f := range in.ReadFaults {
+		fwg.Add(1)
+		go func(f c17Fault) {
+			defer fwg.Done()
+			time.Sleep(time.Duration(f.Hi)*time.Millisecond - time.Since(start))
+			c17FaultUndo(env.path, f)
+		}(f)
+	}
+	defer fwg.Wait()
 	if _, err := server.New(ctx, cfg); err != nil {
 		return fail("server.New with a backup bucket configured failed: " + err.Error())
 	}
